@@ -43,6 +43,7 @@ type Exec struct {
 	freshN    int
 	initialClock string // ghost clock readings at unit entry (shared constant)
 	opaqueAx  map[string]string // defining axioms of opaque predicates, by symbol
+	opaqueRec map[string]bool   // opaque predicates whose definition mentions themselves
 	cellN     int
 	typeTags  map[string]int64
 	unit      *ssa.Function
@@ -1348,6 +1349,10 @@ func (x *Exec) loopHavoc(st *State, fr *Frame, lp *Loop) {
 	}
 	if allCells {
 		for c := range st.cells {
+			// package variables that are never stored to keep their initial value
+			if strings.HasPrefix(c.name, "global:") && x.roGlobalCell(c) {
+				continue
+			}
 			cellSet[c] = true
 		}
 	}
@@ -1705,4 +1710,14 @@ func reslicedOnly(ph *ssa.Phi, lp *Loop) bool {
 		}
 	}
 	return true
+}
+
+// roGlobalCell reports whether the cell stands for a package variable that no code stores to.
+func (x *Exec) roGlobalCell(c *Cell) bool {
+	for g, gc := range globalCells {
+		if gc == c {
+			return x.globalsRO[g]
+		}
+	}
+	return false
 }
